@@ -114,6 +114,7 @@ type c06send struct {
 
 type c06attempt struct {
 	pos     syncer.StartPoint // what StartPoint returned
+	carried string            // non-empty: that position was carried over from this other, unrelated history by SetRunId
 	ids     []string
 	psyncAt int // index into source psync records at the time StartPoint was called
 }
@@ -122,6 +123,8 @@ type c06attempt struct {
 type outStub struct {
 	mu       sync.Mutex
 	stored   syncer.StartPoint // RunId "" = nothing stored
+	carried  string            // the stored position was moved here from this id although the new history does not continue it
+	related  func(oldID string, off int64, newID string) bool
 	cfgRunID string
 	sends    []*c06send
 	attempts []*c06attempt
@@ -138,7 +141,11 @@ func (o *outStub) StartPoint(ctx context.Context, runIds []string) (syncer.Start
 			sp = syncer.StartPoint{DbId: 0, RunId: o.stored.RunId, Offset: o.stored.Offset}
 		}
 	}
-	o.attempts = append(o.attempts, &c06attempt{pos: sp, ids: append([]string(nil), runIds...), psyncAt: len(o.src.Psyncs)})
+	at := &c06attempt{pos: sp, ids: append([]string(nil), runIds...), psyncAt: len(o.src.Psyncs)}
+	if sp.RunId != "" && sp.RunId == o.stored.RunId {
+		at.carried = o.carried
+	}
+	o.attempts = append(o.attempts, at)
 	if w := simrt.Cur(); w != nil {
 		w.Logf("output.StartPoint(%v) -> %s %d", shortIDs(runIds), shortID(sp.RunId), sp.Offset)
 	}
@@ -152,14 +159,35 @@ func (o *outStub) SetRunId(ctx context.Context, id string) error {
 	// to the new id keeping its offset; a position under any other id is not found.
 	if o.stored.RunId != "" && o.stored.RunId != id {
 		if o.stored.RunId == o.cfgRunID {
+			if o.related != nil && o.stored.Offset >= 0 && !o.related(o.stored.RunId, o.stored.Offset, id) {
+				o.carried = o.stored.RunId
+			}
 			o.stored.RunId = id
 		} else {
+			o.carried = ""
 			o.stored = syncer.StartPoint{RunId: id, Offset: -1}
 		}
 	}
 	o.cfgRunID = id
 	if w := simrt.Cur(); w != nil {
 		w.Logf("output.SetRunId(%s)", shortID(id))
+	}
+	return nil
+}
+
+// ResetRunId (the tool calls it instead of SetRunId when the source answered FULLRESYNC, since the repair of
+// C06.carried_position): as checkpoint.UpdateCheckpoint(name, [id, ""]) - nothing is moved, the new id gets the
+// 'none yet' marker; a FULLRESYNC under the id the output already works with changes nothing.
+func (o *outStub) ResetRunId(ctx context.Context, id string) error {
+	o.mu.Lock()
+	defer o.mu.Unlock()
+	if o.cfgRunID != id && o.stored.RunId != id {
+		o.stored = syncer.StartPoint{RunId: id, Offset: -1}
+		o.carried = ""
+	}
+	o.cfgRunID = id
+	if w := simrt.Cur(); w != nil {
+		w.Logf("output.ResetRunId(%s)", shortID(id))
 	}
 	return nil
 }
@@ -184,6 +212,7 @@ func (o *outStub) Send(ctx context.Context, reader syncer.ChannelReader) error {
 		rec.err = err
 		if err == nil {
 			o.stored = syncer.StartPoint{RunId: rec.runID, Offset: rec.left} // full sync completed
+			o.carried = ""
 		}
 		o.mu.Unlock()
 		return err
@@ -227,19 +256,21 @@ func shortIDs(ids []string) []string {
 }
 
 type c06sim struct {
-	r      *Run
-	src    *simredis.Server
-	si     *simredis.SourceImpl
-	stub   *outStub
-	cur    *history
-	prev   *history // previous history exposed as replid2 (nil if none)
-	snaps  map[string]snapInfo
-	nSnap  int
-	ri     *syncer.RedisInput
-	riDone chan error
-	ch     syncer.Channel
-	viol   *Violation
-	hist   map[string]*history
+	r         *Run
+	src       *simredis.Server
+	si        *simredis.SourceImpl
+	stub      *outStub
+	cur       *history
+	prev      *history // previous history exposed as replid2 (nil if none)
+	snaps     map[string]snapInfo
+	nSnap     int
+	ri        *syncer.RedisInput
+	riDone    chan error
+	ch        syncer.Channel
+	viol      *Violation
+	hist      map[string]*history
+	epoch1    bool
+	killsLeft int
 }
 
 type snapInfo struct {
@@ -257,7 +288,7 @@ func (c *c06sim) setViolation(rule, sig, format string, a ...any) {
 
 func init() {
 	Register(&PropertyDef{ID: "C06", Strata: []string{"mem-disconnect", "mem-restart", "mem-failover", "mem-newid", "mem-trim",
-		"disk-disconnect", "disk-restart", "disk-failover", "disk-newid", "disk-trim"}, Run: runC06, StepCap: 20000})
+		"disk-disconnect", "disk-restart", "disk-failover", "disk-newid", "disk-trim", "real-switch"}, Run: runC06, StepCap: 20000})
 }
 
 func (c *c06sim) newSnapshot() []byte {
@@ -346,6 +377,18 @@ func (c *c06sim) step() {
 		}
 	}
 	acts = append(acts, act{"grow", 3, func() { c.grow(1 + int64(s.Choose("grow", 600))) }})
+	if c.epoch1 && c.killsLeft > 0 {
+		// a further connection loss, wherever the round happens to be (psync reply, snapshot transfer, stream)
+		acts = append(acts, act{"source connection lost", 1, func() {
+			c.killsLeft--
+			r.W.Fault("source_conn_lost_again")
+			for _, ss := range c.src.Sessions {
+				if !ss.Dead {
+					c.src.KillSession(ss, 0)
+				}
+			}
+		}})
+	}
 	acts = append(acts, act{"idle", 4, func() {
 		d := []time.Duration{10 * time.Millisecond, 100 * time.Millisecond, 700 * time.Millisecond, 2100 * time.Millisecond}[s.Biased("idle", 4, 1, 2)]
 		r.Logf("idle %v", d)
@@ -384,6 +427,9 @@ func (c *c06sim) quiesce() {
 }
 
 func runC06(r *Run, stratum string) *Violation {
+	if stratum == "real-switch" {
+		return runC06RealSwitch(r, stratum)
+	}
 	g := r.Gen()
 	c := &c06sim{r: r, snaps: map[string]snapInfo{}, hist: map[string]*history{}}
 	id1 := "1" + hexID(g.Bytes("id1", 20))[1:] // first nibble makes ids of one run distinct by construction
@@ -399,6 +445,13 @@ func runC06(r *Run, stratum string) *Violation {
 	c.src.Repl.BacklogStart = base
 	c.grow(1 + int64(g.Choose("initlen", 800)))
 	c.stub = &outStub{src: c.si, cfgRunID: id1}
+	c.stub.related = func(oldID string, off int64, newID string) bool {
+		ho, hn := c.hist[oldID], c.hist[newID]
+		if ho == nil || hn == nil {
+			return true // an id the harness planted (position variants): not judged
+		}
+		return ho == hn || (hn.parent == ho && off <= hn.shared)
+	}
 
 	mcfg := config.ChannelConfig{Type: config.ChannelTypeMemory, Memory: &config.MemoryConfig{MaxSize: 1 << 20, LogSize: int64(64 << g.Choose("logsize", 6))}}
 	disk := strings.HasPrefix(stratum, "disk")
@@ -490,6 +543,13 @@ func runC06(r *Run, stratum string) *Violation {
 		c.prev, c.cur = nil, h3
 		rp := c.src.Repl
 		nb := int64(g.Choose("newbase", 100000))
+		if g.Choose("newbase_near", 2) == 0 && c.stub.stored.Offset > 0 {
+			// the brand-new history happens to cover the offset the target holds of the old one
+			nb = c.stub.stored.Offset - int64(g.Choose("newbase_below", 300))
+			if nb < 0 {
+				nb = 0
+			}
+		}
 		rp.ID, rp.ID2, rp.SecondOffset = id3, strings.Repeat("0", 40), -1
 		rp.Stream, rp.BacklogBase, rp.BacklogStart = nil, nb, nb
 		c.src.RunID = id3
@@ -523,6 +583,9 @@ func runC06(r *Run, stratum string) *Violation {
 		c.stub.stored.RunId = "f" + hexID([]byte("unknown-unknown-unknown"))[1:]
 		desc += "+pos-unknown-id"
 	}
+	c.stub.carried = ""
+	c.epoch1 = true
+	c.killsLeft = g.Choose("epoch1kills", 3)
 	r.Sample = fmt.Sprintf("%s: position before %s@%d, now %s@%d, source id=%s id2=%s second=%d backlog=(%d,%d]", desc, shortID(positionBefore.RunId), positionBefore.Offset,
 		shortID(c.stub.stored.RunId), c.stub.stored.Offset, shortID(c.src.Repl.ID), shortID(c.src.Repl.ID2), c.src.Repl.SecondOffset, c.src.Repl.BacklogStart, c.src.Repl.End())
 	r.Logf("TRANSITION %s", r.Sample)
@@ -618,6 +681,10 @@ func (c *c06sim) check(when string) {
 			// (A) continuation: exactly from the stored position, which must lie on the current history
 			if at.pos.IsInitial() || at.pos.Offset < 0 {
 				c.setViolation("C06.continue_without_position", "stream continued although the target stores no position", "%s attempt %d: output stores no position for ids %v but received a log reader from %d", when, ai, shortIDs(at.ids), first.left)
+				return
+			}
+			if at.carried != "" {
+				c.setViolation("C06.carried_position", "stream continued from a position carried over from another replication history", "%s attempt %d: the output was told to move its position %s@%d to id %s although that history does not continue it (the source had answered FULLRESYNC); the round ended before a snapshot was complete and this attempt continues the stream of %s from %d, which the target never reached", when, ai, shortID(at.carried), at.pos.Offset, shortID(at.pos.RunId), shortID(at.pos.RunId), first.left)
 				return
 			}
 			if first.left != at.pos.Offset {
